@@ -45,6 +45,28 @@ def G(name):
     return ("global", name)
 
 
+_FLIP_OP = {"<": ">", ">": "<", "<=": ">=", ">=": "<=", "==": "==", "is": "is"}
+
+
+def CMP(op, l, r):
+    """Canonical comparison: 'a op b' and its mirrored spelling 'b op' a' are one term.  A constant goes to the right;
+    two non-constant operands are ordered by their printed form ('!=', 'not in', 'is not' are ('not', ...) of these)."""
+    if op in _FLIP_OP:
+        lc, rc = l[0] == "const", r[0] == "const"
+        if (lc and not rc) or (lc == rc and repr(l) > repr(r)):
+            return ("cmp", _FLIP_OP[op], r, l)
+    return ("cmp", op, l, r)
+
+
+def ordered(l):
+    """(lo, hi, strict) when the term says lo < hi (strict) or lo <= hi, whichever way round it is spelled; else None."""
+    if l[0] == "cmp" and l[1] in ("<", "<="):
+        return l[2], l[3], l[1] == "<"
+    if l[0] == "cmp" and l[1] in (">", ">="):
+        return l[3], l[2], l[1] == ">"
+    return None
+
+
 def IT(base, k):
     """k-th element of an unpacked value (tuple result of a call, ...)."""
     return canon_item(base, k)
@@ -127,7 +149,7 @@ def guarded_alts(t, limit=24):
             if any(("not", l) in ks for l in ks):
                 continue
             tt = tuple(vs)
-            if tt[0] in ("sub", "attr", "call", "item", "col"):
+            if tt[0] in ("sub", "attr", "call", "item", "col", "cmp"):
                 tt = recanon(tt)
             out.append((tuple(dict.fromkeys(k)), tt))
         return out or [((), t)]
@@ -251,7 +273,7 @@ def subst(t, mapping):
         else:
             out.append(x)
     res = tuple(out)
-    if res and res[0] in ("sub", "attr", "call", "item", "phi", "col"):
+    if res and res[0] in ("sub", "attr", "call", "item", "phi", "col", "cmp"):
         res = recanon(res)
     return res
 
@@ -270,6 +292,8 @@ def recanon(t):
         return phi(t[1])
     if tag == "col":
         return canon_col(t[1], t[2])
+    if tag == "cmp":
+        return CMP(t[1], t[2], t[3])
     return t
 
 
@@ -389,7 +413,7 @@ def canon_call(func, args, kws):
         return canon_attr(args[0], args[1][1])
 
     if func[0] == "global" and func[1] in _CMP_FUNCS and len(args) == 2 and not kws:
-        return ("cmp", _CMP_FUNCS[func[1]], args[0], args[1])
+        return CMP(_CMP_FUNCS[func[1]], args[0], args[1])
     # expand *tuple
     if any(a[0] == "star" for a in args):
         new = []
@@ -844,10 +868,10 @@ class TermBuilder:
         if op == "notin":
             return ("not", ("cmp", "in", l, r))
         if op == "!=":
-            return ("not", ("cmp", "==", l, r))
+            return ("not", CMP("==", l, r))
         if op == "isnot":
-            return ("not", ("cmp", "is", l, r))
-        return ("cmp", op, l, r)
+            return ("not", CMP("is", l, r))
+        return CMP(op, l, r)
 
     def index(self, s, at, env):
         T = lambda x: NONE if x is None else self.term(x, at, env)
